@@ -209,7 +209,10 @@ class ModuleInfo:
             elif isinstance(st, ast.ImportFrom):
                 base = self._abs(st.module, st.level)
                 for a in st.names:
-                    self.imports[a.asname or a.name] = ("from", base, a.name)
+                    nm = a.asname or a.name
+                    if nm in self.imports:      # an earlier binding of the same name (re-export cycles: see World.resolve)
+                        self.__dict__.setdefault("imports_earlier", {}).setdefault(nm, []).append(self.imports[nm])
+                    self.imports[nm] = ("from", base, a.name)
             elif isinstance(st, ast.If):
                 # `if TYPE_CHECKING:` imports matter only for annotations, but resolving them is harmless
                 self._scan(st.body)
@@ -317,6 +320,15 @@ class World:
                 return r
             if sub is not None:
                 return ("module", f"{base}.{attr}")
+            # a package __init__ that re-imports a name from a submodule which itself takes it from the package (import cycle): at
+            # run time the name is already bound by the EARLIER import of the same name; follow that one
+            for imp2 in reversed(mod.__dict__.get("imports_earlier", {}).get(name, [])):
+                if imp2[0] != "from":
+                    continue
+                t2 = self.module(imp2[1])
+                r2 = self.resolve(t2, imp2[2], depth + 1) if t2 is not None else None
+                if r2 is not None:
+                    return r2
             return None
         return None
 
